@@ -29,6 +29,7 @@ TRUSTED = [
 ASSUMPTIONS = [
     'sizes passed to read/readline/readlines are None or ints; Content-Length >= 0',
     'close()/closed-stream errors of the ASGI stream are covered by the correspondence and oracle only (guard tests, no theorem); a second iteration while one is suspended is in the history theorem (it answers notAllowed and changes nothing)',
+    're-entrant use (an operation on the same ASGI stream from inside the body of an `async for` over it) is generated with inner operations that consume to a chunk border or to the end (readall, read(), read(0), exhaust, tell); a sized read that leaves part of an event buffered while the iteration is parked is outside the domain: the parked iteration does not look at the buffer again (the statement speaks of sequences of operations)',
 ]
 RULE = ('random bodies over {a,b,c,\\n} (len 0..20) x Content-Length in {absent, exact, shorter, longer, 0} x short-read oracles / '
         'ASGI event shapes (missing body/more_body keys, empty and oversized chunks, disconnect anywhere) x histories of 1..7 operations; '
@@ -262,10 +263,34 @@ def _asgi(ctx):
             return f" tell={s.tell()} eof={'true' if s.eof else 'false'} awaited={awaited[0]}"
         out = b''; hist = []; failed = None; exhausted = False; errored = False
         for _ in range(rnd.randint(1, 6)):
-            op = rnd.choice(['read', 'read', 'readall', 'iter', 'exhaust', 'close'])
+            op = rnd.choice(['read', 'read', 'readall', 'iter', 'exhaust', 'close', 'iter_inner'])
             ctx.count('asgi_op_' + op)
+            last_op = False
             try:
-                if op == 'read':
+                if op == 'iter_inner':
+                    # re-entrant use: while the iteration is parked in the loop body, another read operation runs on the SAME stream,
+                    # then the iteration goes on.  Judged by the statement oracle only (the model's histories are sequential), hence the
+                    # last operation of the history.
+                    j = rnd.randint(1, 2); inner = rnd.choice(['readall', 'read_none', 'read_0', 'exhaust', 'tell'])      # (a sized read that leaves bytes buffered while an iteration is parked: see ASSUMPTIONS)
+                    hist.append(['iter-with-inner-op', j, inner]); line = None; last_op = True
+                    c = 0
+                    async for ch in s:
+                        out += ch; c += 1
+                        if c == j:
+                            if inner == 'readall': out += await s.readall()
+                            elif inner == 'read_none': out += await s.read()
+                            elif inner == 'read_n':
+                                n_ = rnd.choice([1, 2, 5, 100]); d_ = await s.read(n_)
+                                if len(d_) > n_: failed = f'read({n_}) returned {len(d_)} bytes'
+                                out += d_
+                            elif inner == 'read_0': out += await s.read(0)
+                            elif inner == 'exhaust':
+                                await s.exhaust(); exhausted = True
+                            else: s.tell()
+                        if not exhausted and not declared.startswith(out):
+                            failed = failed or 'returned bytes are not a prefix of the declared body'
+                            break
+                elif op == 'read':
                     n = rnd.choice([None, -1, 0, 1, 2, 5, 100]); hist.append(['read', n])
                     line = f"read {'none' if n is None else n}"
                     d = await s.read(n); sess.op(line, 'data ' + hx(d) + st())
@@ -295,19 +320,21 @@ def _asgi(ctx):
                 else:
                     hist.append(['close']); line = 'close'; s.close(); sess.op(line, 'unit' + st())
             except _WouldBlock:
-                sess.op(line, 'BLOCKED')
+                if line is not None: sess.op(line, 'BLOCKED')
                 if complete: failed = f'{op} blocked on receive() although the server had delivered the end of the body / a disconnect'
                 break
             except OperationNotAllowed:
-                sess.op(line, 'notAllowed' + st()); errored = True
+                if line is not None: sess.op(line, 'notAllowed' + st())
+                errored = True
             except ValueError:
-                sess.op(line, 'closedErr' + st()); errored = True
+                if line is not None: sess.op(line, 'closedErr' + st())
+                errored = True
             if failed is None and not exhausted:
                 if not declared.startswith(out): failed = 'returned bytes are not a prefix of the declared body'
                 elif s.tell() != len(out) and not s.closed: failed = f'tell() = {s.tell()} but {len(out)} bytes were returned'
             if failed is None and exhausted and s.tell() > len(declared) and not s.closed:
                 failed = f'tell() = {s.tell()} exceeds the declared body ({len(declared)})'
-            if failed: break
+            if failed or last_op: break
         if failed is None and not exhausted and not errored and not s.closed and s.eof and complete and out != declared:
             failed = 'eof reported but the declared body was not delivered in full'
         ctx.oracle('asgi: outputs are a prefix of the declared body; read(n) <= n; tell = bytes returned; whole body at eof; never blocks once the end was delivered',
